@@ -15,6 +15,11 @@ fn v3_into_v5(input: &Input, ctx: &mut Ctx) -> CaseResult {
     let mut t = Tape::new(input.tape());
     let proto = if t.flag() { Protocol::V310 } else { Protocol::V311 };
     let c = gen::gen_v3_connect(&mut t, &GenCfg::MEDIUM, proto).map_err(|e| Violation::new(e.0))?;
+    v3_connect_into_v5(c, ctx)
+}
+
+fn v3_connect_into_v5(c: v3::Connect, ctx: &mut Ctx) -> CaseResult {
+    let proto = c.protocol;
     let p = v3::Packet::Connect(c.clone());
     let enc = p.encode().map_err(|e| Violation::new(format!("encode failed: {:?}", e)))?.as_ref().to_vec();
     let want = v5::ErrorV5::Common(Error::UnexpectedProtocol(proto));
@@ -49,10 +54,50 @@ fn v3_into_v5(input: &Input, ctx: &mut Ctx) -> CaseResult {
     Ok(())
 }
 
+/// nums = [kind, target]: a large CONNECT of one family presented to the other family's decoders.
+/// kind 0: v5 CONNECT whose property section is `target` bytes; kind 1: v5 CONNECT whose will
+/// property section is `target` bytes; kind 2: v3 CONNECT with `target` fields of 65,535 bytes.
+fn sized_cross(input: &Input, ctx: &mut Ctx) -> CaseResult {
+    let n = input.nums();
+    let (kind, target) = (n[0], n[1] as usize);
+    if kind == 2 {
+        let big = std::sync::Arc::new("m".repeat(65_535));
+        let topic: mqtt_proto::TopicName = std::convert::TryFrom::try_from("t".repeat(65_535)).map_err(|_| Violation::new("MQV-INTERNAL topic"))?;
+        let mut c = v3::Connect::new(if target >= 1 { big.clone() } else { std::sync::Arc::new("c".to_string()) }, 10);
+        c.protocol = if target % 2 == 0 { Protocol::V311 } else { Protocol::V310 };
+        if target >= 2 {
+            c.username = Some(big.clone());
+        }
+        if target >= 3 {
+            c.password = Some(bytes::Bytes::from(vec![7u8; 65_535]));
+        }
+        if target >= 4 {
+            c.last_will = Some(v3::LastWill::new(mqtt_proto::QoS::Level1, if target >= 5 { topic } else { std::convert::TryFrom::try_from("w".to_string()).map_err(|_| Violation::new("MQV-INTERNAL"))? }, bytes::Bytes::from(vec![9u8; 65_535])));
+        }
+        ctx.label("sized:v3-connect-into-v5");
+        return v3_connect_into_v5(c, ctx);
+    }
+    let p = crate::sized::build_v5(if kind == 0 { crate::sized::K_PROPS } else { crate::sized::K_WILL_PROPS }, 0, target);
+    match p {
+        Some(v5::Packet::Connect(c)) => {
+            ctx.label("sized:v5-connect-into-v3");
+            v5_connect_into_v3(c, ctx)
+        }
+        _ => {
+            ctx.label("sized:not-constructible");
+            Ok(())
+        }
+    }
+}
+
 /// a v5 CONNECT presented to the v3 decoders
 fn v5_into_v3(input: &Input, ctx: &mut Ctx) -> CaseResult {
     let mut t = Tape::new(input.tape());
     let c = gen::gen_v5_connect(&mut t, &GenCfg::MEDIUM).map_err(|e| Violation::new(e.0))?;
+    v5_connect_into_v3(c, ctx)
+}
+
+fn v5_connect_into_v3(c: v5::Connect, ctx: &mut Ctx) -> CaseResult {
     let p = v5::Packet::Connect(c.clone());
     let enc = p.encode().map_err(|e| Violation::new(format!("encode failed: {:?}", e)))?.as_ref().to_vec();
     let want = Error::UnexpectedProtocol(Protocol::V500);
@@ -201,12 +246,13 @@ fn grid(input: &Input, ctx: &mut Ctx) -> CaseResult {
     Ok(())
 }
 
+pub const SUB_SIZED: Sub = Sub { name: "c13.sized", f: sized_cross };
 pub const SUB_35: Sub = Sub { name: "c13.v3-into-v5", f: v3_into_v5 };
 pub const SUB_53: Sub = Sub { name: "c13.v5-into-v3", f: v5_into_v3 };
 pub const SUB_GRID: Sub = Sub { name: "c13.grid", f: grid };
 
 pub fn subs() -> Vec<Sub> {
-    vec![SUB_35, SUB_53, SUB_GRID]
+    vec![SUB_35, SUB_53, SUB_GRID, SUB_SIZED]
 }
 
 pub fn run(env: &mut Env) -> RunResult {
@@ -215,6 +261,28 @@ pub fn run(env: &mut Env) -> RunResult {
     env.run_tapes(SUB_53, n, 260)?;
     let nn = names().len() as u64;
     env.run_enum(SUB_GRID, nn * 256, true, move |i| Input::Nums(vec![i / 256, i % 256]))?;
+    // large CONNECTs: property sections around every width boundary, around the largest possible
+    // v3 CONNECT (327,697 bytes of remaining length) and beyond; v3 CONNECTs with 1..5 maximal fields
+    let mut sz: Vec<Input> = Vec::new();
+    let mut targets: Vec<u64> = vec![0, 5, 127, 128, 16_383, 16_384, 65_535, 131_080, 262_150, 400_000, 1_000_000, 2_097_151, 2_097_152, 2_097_153];
+    targets.extend(327_640u64..=327_720);
+    if env.thorough() {
+        targets.extend((300_000u64..360_000).step_by(997));
+        targets.extend([4_000_000u64, 16_777_216]);
+    }
+    for t in &targets {
+        sz.push(Input::Nums(vec![0, *t]));
+    }
+    for t in [0u64, 5, 128, 16_384, 327_660, 327_690, 2_097_152] {
+        sz.push(Input::Nums(vec![1, t]));
+    }
+    for t in 0..=5u64 {
+        sz.push(Input::Nums(vec![2, t]));
+    }
+    let k = sz.len() as u64;
+    env.run_enum(SUB_SIZED, k, false, move |i| sz[i as usize].clone())?;
+    env.require("c13.sized", "sized:v5-connect-into-v3");
+    env.require("c13.sized", "sized:v3-connect-into-v5");
     env.require("c13.v3-into-v5", "v3.1->v5");
     env.require("c13.v3-into-v5", "v3.1.1->v5");
     env.require("c13.v5-into-v3", "v5->v3");
